@@ -64,7 +64,11 @@ def generate(ctx):
     except (T.Unsupported, SyntaxError, OSError) as e:
         return [f"c07_rules2lean: {type(e).__name__}: {e}"]
     ctx.notes.append("c07_rules2lean translated: " + "; ".join(t.split(":")[0] for t in info.get("translated", [])))
-    if lean is not None:
+    if problems:
+        # a function outside the supported fragment: keep the last complete generated file (the proofs then still
+        # check against the old text and are counted), the translation problem itself is what is reported
+        ctx.notes.append("Gen/C07Rules.lean NOT rewritten: " + "; ".join(problems)[:300])
+    elif lean is not None:
         if T.write_if_changed(LEAN / "CogentModel" / "Gen" / "C07Rules.lean", lean):
             ctx.notes.append("Gen/C07Rules.lean was rewritten (the translated python statements differ from the last "
                              "generated text)")
